@@ -302,6 +302,19 @@ def _stmt_of(ctx, modname, node):
     return n
 
 
+def _share_page_exists(ctx, sf, rr: RuleResult) -> None:
+    """'plus the four default helper templates when absent': absence is decided by page_exists, which
+    must mean 'no row under this title' (= get_page(...) is not None, checked by C10.R4) -- not
+    'the redirect target is missing'."""
+    r = c10.rule_r4(ctx, sf)
+    for f in r.findings:
+        if f.function == "core.Wtp.page_exists":
+            rr.bad(Finding("C12.R4", f.file, f.function, f.construct,
+                           f.message + "; a helper title that the dump defines as a redirect is overwritten by the built-in default", f.line))
+    if not any(f.function == "core.Wtp.page_exists" for f in r.findings):
+        rr.ok("core.Wtp.page_exists", "existence = a row under the tested key")
+
+
 def rule_r5(ctx, sf) -> RuleResult:
     """A title that occurs again in the dump (or is re-added by a post-processing step) ends up
     with *all* columns of its latest copy: text, model and redirect target (shared with C10.R2)."""
@@ -317,6 +330,24 @@ def rule_r5(ctx, sf) -> RuleResult:
     return rr
 
 
+def rule_r6(ctx) -> RuleResult:
+    """'templates reduced to their includable part': the reduction is the one checked by C04.R2
+    (step order, flags, no shortcut before the steps)."""
+    from . import c04
+
+    r = c04.rule_r2(ctx)
+    rr = RuleResult("C12.R6", "stored templates are reduced by the complete includable-part pipeline (shared with C04.R2)", min_instances=7)
+    for f in r.findings:
+        rr.bad(Finding("C12.R6", f.file, f.function, f.construct, f.message + "; such templates are stored with their full text", f.line))
+    rr.cases = set(r.cases)
+    rr.obligations = r.obligations
+    rr.discharged = r.discharged
+    rr.samples = list(r.samples)
+    return rr
+
+
 def run(ctx) -> list:
     sf = SqlFacts(ctx.index)
-    return [rule_r1(ctx), rule_r2(ctx), rule_r3(ctx, sf), rule_r4(ctx), rule_r5(ctx, sf)]
+    r4 = rule_r4(ctx)
+    _share_page_exists(ctx, sf, r4)
+    return [rule_r1(ctx), rule_r2(ctx), rule_r3(ctx, sf), r4, rule_r5(ctx, sf), rule_r6(ctx)]
